@@ -5,10 +5,10 @@ package checks
 // every write history of V versions over a small per-store write alphabet, against a map model.
 
 import (
-	"sync/atomic"
 	"bytes"
 	"fmt"
 	"sort"
+	"sync/atomic"
 
 	"github.com/pokt-network/posmint/store/rootmulti"
 	stypes "github.com/pokt-network/posmint/store/types"
